@@ -254,6 +254,9 @@ def ortho_generic():
     for s in range(-2, 3):
         g.append(dict(s=s, lmax=8, dth=0, dph=0, phi0=0.0))
         g.append(dict(s=s, lmax=8, dth=3, dph=4, phi0=0.37))
+    # a non-default lmax (factorials beyond 20!)
+    for s in (-2, 0, 1):
+        g.append(dict(s=s, lmax=13, dth=1, dph=2, phi0=-0.21))
     return g
 
 
@@ -359,7 +362,9 @@ def values_generic():
     pts = [[0.0, 0.3], [math.pi, -1.1], [0.37, 0.0], [1.1, 2.5],
            [math.pi / 2, -0.6], [2.6, 5.9], [3.0, 7.7]]
     return [dict(s=s, l=l, pts=pts) for s in range(-2, 3)
-            for l in range(abs(s), 9)]
+            for l in range(abs(s), 9)] + \
+        [dict(s=s, l=l, pts=pts) for s in (-2, 0, 2) for l in (10, 11, 12,
+                                                               14, 16)]
 
 
 # ---------------------------------------------------------------------------
